@@ -42,8 +42,9 @@ func c09Menu(w *mintops.W) []string {
 		ops = append(ops, fmt.Sprintf("swap|%du|exact", i))
 	}
 	if len(ks) >= 2 {
+		// inputs of the oldest and the newest keyset in one request, in both orders (each charged its own fee)
 		a, b := byKS[ks[0]], byKS[ks[len(ks)-1]]
-		ops = append(ops, fmt.Sprintf("swap|%d,%d|exact", a, b), fmt.Sprintf("swap|%d,%d|plus1", a, b))
+		ops = append(ops, fmt.Sprintf("swap|%d,%d|exact", a, b), fmt.Sprintf("swap|%d,%d|plus1", a, b), fmt.Sprintf("swap|%d,%d|exact", b, a), fmt.Sprintf("swap|%d,%d|plus1", b, a))
 	}
 	if len(w.Quotes) < 3 {
 		ops = append(ops, "mq|8")
@@ -175,6 +176,10 @@ func c09OwnSpecs(quick bool) []*bfs.Spec {
 	}
 	sfx := map[bool]string{true: "-q", false: ""}[quick]
 	specs := []*bfs.Spec{{Prop: "C09", Name: "C09-fee100" + sfx, Cfg: mintops.Config{Fee: 100}, Init: []string{"fund|8,4,2,1,1"}, Menu: c09Menu, Probe: c09Probe, Depth: d}}
+	// ecash of a fee-free and of a fee-bearing keyset already in hand (both directions of the fee change)
+	specs = append(specs,
+		&bfs.Spec{Prop: "C09", Name: "C09-free-then-fee1000" + sfx, Cfg: mintops.Config{Fee: 0}, Init: []string{"fund|8,8", "rotate|1000", "fund|8,8"}, Menu: c09Menu, Probe: c09Probe, Depth: d - 2},
+		&bfs.Spec{Prop: "C09", Name: "C09-fee1000-then-free" + sfx, Cfg: mintops.Config{Fee: 1000}, Init: []string{"fund|8,8", "rotate|0", "fund|8,8"}, Menu: c09Menu, Probe: c09Probe, Depth: d - 2})
 	if !quick {
 		specs = append(specs, &bfs.Spec{Prop: "C09", Name: "C09-fee0", Cfg: mintops.Config{Fee: 0}, Init: []string{"fund|8,4,2,1,1"}, Menu: c09Menu, Probe: c09Probe, Depth: d})
 	}
